@@ -227,15 +227,10 @@ BODYSETS = {
     ],
     "model": [
         # add_def, load_section, load_assertion, get_key_suffix, from_str, to_text: TRANSLATED (tools/rs2coq_ini.py, PcIniGen.v)
-        ("add_policy", DM, fnre("add_policy")),
-        ("add_policies", DM, fnre("add_policies")),
-        ("get_policy", DM, fnre("get_policy")),
-        ("get_filtered_policy", DM, fnre("get_filtered_policy")),
-        ("has_policy", DM, fnre("has_policy")),
-        ("get_values_for_field_in_policy", DM, fnre("get_values_for_field_in_policy")),
-        ("remove_policy", DM, fnre("remove_policy")),
-        ("remove_policies", DM, fnre("remove_policies")),
-        ("remove_filtered_policy", DM, fnre("remove_filtered_policy")),
+        # add_policy, add_policies, get_policy, get_filtered_policy, has_policy, get_values_for_field_in_policy, remove_policy,
+        # remove_policies, remove_filtered_policy (and get_model / get_mut_model): TRANSLATED as whole functions on the model map
+        # (tools/rs2coq_model2.py = part 18 on top of the loops of parts 3 / 8; PinChecks/PcModel2Gen.v): no body of
+        # default_model.rs is hash-pinned any more
     ],
     "internal": [
     ],
@@ -286,9 +281,12 @@ def pins_bodysets(out):
         pin_bodies(out, setname, items)
     # whole-file pins for the small files every decision goes through
     import hashlib
-    for name, rel in [("fmacros", "src/macros.rs"), ("fmgmtapi", "src/management_api.rs"),
-                      ("frbacapi", "src/rbac_api.rs"), ("femitter", "src/emitter.rs"), ("fconvert", "src/convert.rs"),
-                      ("fcachedenforcer", "src/cached_enforcer.rs"), ("fdefaultcache", "src/cache/default_cache.rs"),
+    # (src/macros.rs, src/convert.rs and src/cache/default_cache.rs are no longer pinned as text: part 18, tools/rs2coq_model2.py,
+    #  translates every macro / impl / method of them each run - PinChecks/PcModel2Gen.v -; it also translates the enums of
+    #  src/error.rs, whose pin stays because the Display texts of the variants are not part of that translation)
+    for name, rel in [("fmgmtapi", "src/management_api.rs"),
+                      ("frbacapi", "src/rbac_api.rs"), ("femitter", "src/emitter.rs"),
+                      ("fcachedenforcer", "src/cached_enforcer.rs"),
                       # small files a property is anchored in that no other pin covers
                       ("frolemanager", "src/rbac/role_manager.rs"), ("ferror", "src/error.rs"), ("fadaptermod", "src/adapter/mod.rs"),
                       ("fwatcher", "src/watcher.rs"), ("ffrontend", "src/frontend.rs")]:
